@@ -178,6 +178,9 @@ def run_worker(job, r):
         cmd('opt 0 hash_cache 0')
     uri = {'http': 'ksi+http://aggr.example:8080/gt-signingservice', 'tcp': 'ksi+tcp://aggr.example:3332',
            'async-tcp': 'ksi+tcp://aggr.example:3332', 'async-http': 'ksi+http://aggr.example:8080/x'}[transport]
+    if seed % 3 == 1:
+        # the endpoint URI also embeds credentials: the explicitly given login id and key still are the caller's (they take precedence)
+        uri = uri.replace('://', '://uri-user:uri-key@', 1)
     if transport.startswith('async'):
         cmd('async_new 0 0 sign')
         rr = cmd('async_endpoint 0 set %s %s %s' % (uri, login, key.decode('latin1')))
